@@ -74,7 +74,7 @@ claimed = {
    note="Bounds L=2-3 quick, 3-4 thorough; float64 values and anchors from concrete pools (native formatting); the graph-level WriteGraph/ReadIntoGraph round trip is covered for small graphs by HarnessC05Graph when registered.",
    ref="DESIGN.md §4 C05"),
  "C06": dict(
-   text="Bounded model checking of the real UUID encoders with SHA-1 abstracted as an injective function: for two symbolic nodes (type/id up to L bytes each, documented domain), literals (all 25 kind pairs; bool, full-range int64, float64 from a pool of 9, text/blob up to L bytes; plus text of 4-5 bytes against bool), predicates (immutable/temporal, symbolic nanoseconds, three zones) and triples over a mixed object pool, the solver decides UUID(a)=UUID(b) <=> a and b are the same value, Triple.Equal likewise, that UUID() never panics for any int64, and that a second call (also with a dirty pooled buffer) returns the same bytes. Known findings (no separator between node type and id; no literal type tag) are reproduced natively and reported as KNOWN-FINDING; anything else is a violation.",
+   text="Bounded model checking of the real UUID encoders with SHA-1 abstracted as an injective function: for two symbolic nodes (type/id up to L bytes each, documented domain), literals (all 25 kind pairs; bool, full-range int64, float64 from a pool of 15, text/blob up to L bytes; plus text of 4-5 bytes against bool), predicates (immutable/temporal, symbolic nanoseconds, three zones) and triples over a mixed object pool, the solver decides UUID(a)=UUID(b) <=> a and b are the same value, Triple.Equal likewise, that UUID() never panics for any int64, and that a second call (also with a dirty pooled buffer) returns the same bytes. Known findings (no separator between node type and id; no literal type tag) are reproduced natively and reported as KNOWN-FINDING; anything else is a violation.",
    note="SHA-1 collisions are assumed away (uninterpreted injective functions / real SHA-1 on concrete input); bounds L=2 quick, 3 thorough; temporal seconds from a pool of three; float64 from a pool.",
    ref="DESIGN.md §4 C06"),
  "C16": dict(
